@@ -56,6 +56,8 @@ def plain_kwargs(name):
 def n_case(rng, v):
     if isinstance(v, str) and v.isascii() and v.lower() != v.upper():     # bytes.lower() is ASCII-only: non-ASCII letter case is not what the option promises for bytes
         return rng.choice([v.upper(), v.lower(), v.swapcase()])
+    if isinstance(v, bytes) and v.lower() != v.upper():          # byte strings: the ASCII letters only, whatever the other bytes are (text in any encoding, binary data)
+        return rng.choice([v.upper(), v.lower(), v.swapcase()])
     return None
 
 
@@ -63,7 +65,10 @@ def n_strtype(rng, v):
     if isinstance(v, str):
         return v.encode('utf-8')
     if isinstance(v, bytes):
-        return v.decode('utf-8')
+        try:
+            return v.decode('utf-8')
+        except UnicodeDecodeError:
+            return None          # not a text: no str to stand for it
     return None
 
 
@@ -211,6 +216,8 @@ def gen_value(ctx, name=None):
         keys = ['a', 'b', 'Key', 'x y', 2, 10, None, '__p', Color.RED, Color.GREEN]          # not 1 / 'green': they would collapse with the members' values
     if name in ('ignore_string_type_changes',):
         scal = scal + [b'a', b'bytes']
+    if name in ('ignore_string_case',):
+        scal = scal + [b'\x89PNG\r\n', b'Caf\xe9 Bar', b'abc', b'MiXed \xff\xfe', 'Caf\u00e9'.encode(), b'\x00A']
     if name in ('ignore_string_case', 'ignore_string_type_changes'):
         keys = ['a', 'b', 'Key', 'x y', 'ab', 'UP'] + (['é', '日本'] if name == 'ignore_string_type_changes' else [])
     g = Gen(ctx.rng, scalars=scal, keys=keys, kinds=('dict', 'list', 'tuple'), max_depth=3, max_width=4, p_leaf=0.4)
@@ -489,26 +496,30 @@ def run(ctx, impl_only=False):
     #      under each option and each pair of numeric options: nothing may raise that the plain diff accepts, a copy stays empty
     odd = ODD_NUMS + NANS + ODD_DATES + NONASCII + DT + [_decimal.Decimal('-Infinity'), _decimal.Decimal('0.001'), 10 ** 20, b'caf\xc3\xa9', Color.GREEN]
     twins = {_decimal.Decimal('2.50'): 2.5, _decimal.Decimal('0.001'): 0.001, 3 + 0j: 3, 2.5: _decimal.Decimal('2.5')}
+    cases_ = []
     for x in odd:
-        for y in [copy.deepcopy(x)] + ([twins[x]] if x in twins else []):
-            a = {'k': x, 'l': (x, 1), 'm': {'n': [x]}}
-            b = {'k': y, 'l': (y, 1), 'm': {'n': [y]}}
-            plain, e0 = safe_diff(a, b)
-            if e0 is not None:
-                ctx.count('plain_raises'); continue
-            for combo in [(o,) for o in opt_names] + [('math_epsilon', 'ignore_numeric_type_changes'), ('significant_digits', 'ignore_numeric_type_changes'),
-                                                      ('math_epsilon', 'significant_digits'), ('truncate_datetime', 'default_timezone')]:
-                kw = {}
-                for nme in combo:
-                    kw.update(OPTIONS[nme])
-                case = {'clause': 'monotone/total', 'options': list(combo), 'x': repr(a), 'y': repr(b), 'zip': False}
-                ctx.evaluations += 1
-                d, e = safe_diff(a, b, **kw)
-                ctx.count('odd_leaf_cases')
-                if e is not None:
-                    ctx.violate(case, 'options %s make DeepDiff raise %s (%s) on inputs it accepts without them' % ('+'.join(combo), type(e).__name__, str(e)[:60]))
-                elif not plain and d:
-                    ctx.violate(case, 'the plain diff is empty but the diff under %s is not: %s' % ('+'.join(combo), str(d)[:120]))
+        cases_.append((x, copy.deepcopy(x)))
+        if x in twins:
+            cases_ += [(x, twins[x]), (twins[x], x)]          # a twin pair in both orientations
+    for (x, y) in cases_:
+        a = {'k': x, 'l': (x, 1), 'm': {'n': [x]}}
+        b = {'k': y, 'l': (y, 1), 'm': {'n': [y]}}
+        plain, e0 = safe_diff(a, b)
+        if e0 is not None:
+            ctx.count('plain_raises'); continue
+        for combo in [(o,) for o in opt_names] + [('math_epsilon', 'ignore_numeric_type_changes'), ('significant_digits', 'ignore_numeric_type_changes'),
+                                                  ('math_epsilon', 'significant_digits'), ('truncate_datetime', 'default_timezone')]:
+            kw = {}
+            for nme in combo:
+                kw.update(OPTIONS[nme])
+            case = {'clause': 'monotone/total', 'options': list(combo), 'x': repr(a), 'y': repr(b), 'zip': False}
+            ctx.evaluations += 1
+            d, e = safe_diff(a, b, **kw)
+            ctx.count('odd_leaf_cases')
+            if e is not None:
+                ctx.violate(case, 'options %s make DeepDiff raise %s (%s) on inputs it accepts without them' % ('+'.join(combo), type(e).__name__, str(e)[:60]))
+            elif not plain and d:
+                ctx.violate(case, 'the plain diff is empty but the diff under %s is not: %s' % ('+'.join(combo), str(d)[:120]))
     # ---- correspondence with the option-aware Lean model (values of the PyVal universe)
     if not impl_only:
         model_correspondence(ctx)
@@ -546,6 +557,7 @@ def run(ctx, impl_only=False):
             and 'type_changes' in DeepDiff([_dt.datetime(2024, 5, 1)], [1], ignore_numeric_type_changes=True, truncate_datetime='minute')
             and DeepDiff({_dt.datetime(2024, 5, 1): 1}, {_dt.datetime(2024, 5, 1): 1}, ignore_numeric_type_changes=True) == {}),
     ]
+    regress.append(('F69', lambda: 'values_changed' in DeepDiff({b'\xff': 1}, {b'\xff': 2}, ignore_string_type_changes=True) and DeepDiff({b'\xfe\x00': [1]}, {b'\xfe\x00': [1]}, ignore_string_type_changes=True, ignore_string_case=True) == {}))
     regress.append(('F27', lambda: DeepDiff([1.5, 'a'], ['a', b'a'], exclude_types=[float], ignore_string_type_changes=True) == {}
                     and DeepDiff((10.0, 10), (31.25, 10), exclude_types=[float]) == {}))
     class _K(enum.Enum):
@@ -589,7 +601,12 @@ def run(ctx, impl_only=False):
 
 def open_witnesses(ctx, findings):
     from deepdiff import DeepDiff
+    import enum as _enum
+    class _E(_enum.Enum):
+        A = 1
     wit = {'F40': lambda: DeepDiff([{1.0, 5}], [{1.0000001, 5}], math_epsilon=0.01) == {},
+           'F70': lambda: bool(DeepDiff([10 ** 400], [10 ** 400 + 1], significant_digits=3) is not None) and bool(DeepDiff([10 ** 400], [10 ** 400 + 1], ignore_numeric_type_changes=True) is not None),
+           'F71': lambda: bool(DeepDiff(['a'], [_E.A], use_enum_value=True, ignore_string_case=True) is not None) and bool(DeepDiff([_E.A], ['a'], use_enum_value=True, math_epsilon=0.1) is not None),
            'F50': lambda: (DeepDiff({'A': 1, 'a': 2}, {'a': 2, 'A': 1}) == {} and DeepDiff({'A': 1, 'a': 2}, {'a': 2, 'A': 1}, ignore_string_case=True) == {}
                            and DeepDiff({b'x': 1, 'x': 2}, {'x': 2, b'x': 1}, ignore_string_type_changes=True) == {})}
     for fid, fn in wit.items():
